@@ -678,6 +678,13 @@ func (p *pop) run(thorough bool, only *chainSpec) {
 					if len(pages) >= 2 {
 						p.fps[fmt.Sprintf("%s|%v|%s|n=%d|%s", form, reverse, countClass(cnt, len(want)), n, p.spec.Shape)] = struct{}{}
 					}
+					if len(pages) == 3 && p.spec.ID%17 == 0 {
+						var ps []string
+						for _, pg := range pages {
+							ps = append(ps, fmt.Sprintf("cursor=%s -> next=%s items=%v", qs(pg.cursor), qs(pg.next), quoteList(pg.items)))
+						}
+						p.s.Sample(8, map[string]interface{}{"population": p.spec.ID, "engine": p.spec.Engine, "chain": cs.name(), "count": cnt, "start": strconv.Quote(start), "pages": ps})
+					}
 					if !ok {
 						continue
 					}
